@@ -4,11 +4,14 @@ blocks of depth <= 3 with and without exceptions, and worker threads that set de
 import itertools
 import threading
 
+import ast
+
 
 def _vals():
     from fst import FST
     good = {
-        'raw': [False, True, 'auto'], 'trivia': [True, False, 'all', 'block+1', 3, ('none', 'line'), ()],
+        'raw': [False, True, 'auto'], 'trivia': [True, False, 'all', 'block+1', 3, ('none', 'line'), (), (True, 'all'), (2, 'line+1'), (False, False), ('block-1', 5),
+                   ('line',)],
         'coerce': [True, False], 'promote': [True, False, 'identifier', 'all'], 'elif_': [True, False],
         'pep8space': [True, False, 1], 'docstr': [True, False, 'strict'], 'pars': [True, False, 'auto'],
         'pars_walrus': [True, False, None], 'pars_arglike': [True, False, None], 'norm': [True, False, 'star', 'call'],
@@ -17,7 +20,8 @@ def _vals():
         'args_as': [None, 'pos', 'kw_maybe'],
     }
     bad = {
-        'raw': [None, 'x', 2], 'trivia': ['bogus', (1, 2, 3), None, ('line', 'block')], 'coerce': [None, 'auto', 1],
+        'raw': [None, 'x', 2], 'trivia': ['bogus', (1, 2, 3), None, ('line', 'block'), (True, 'bogus'), (False, None), (0, 'all+x'), ('block', 'bogus'),
+                                              ('bogus', 'line'), (3, 'block-x'), (None, True), ('bogus',)], 'coerce': [None, 'auto', 1],
         'promote': ['x', None], 'elif_': [None, 'x'], 'pep8space': [2, None, 'x'], 'docstr': ['x', None],
         'pars': ['x', None, 2], 'pars_walrus': ['auto', 3], 'pars_arglike': ['auto', 3], 'norm': [None, 'x'],
         'norm_self': ['x', 4], 'norm_get': ['x', 4], 'set_norm': [True, None, 'x'], 'op_side': [True, 'x', None],
@@ -167,6 +171,62 @@ def main(payload):
         if FST.get_options() != before:
             fail(f'C20.B.per_call[{n}]', 'an option passed to a call changed the thread default')
         distinct.add(('percall', n))
+    # 4b. object-valued options (an FST / AST node as `op`): "never consumed" - the same object handed to a sequence of
+    #     calls, or installed as a block default, gives every call the result it has alone, and is itself unchanged
+    OBJ_CASES = [('a == b', None, 'x', [('end', 'right'), (0, 'left'), ('end', 'right'), (1, 'right'), (1, 'left')], '<', 'cmpop'),
+                 ('a == b', None, 'x', [(1, 'left'), ('end', 'right'), (0, 'left')], 'is not', 'cmpop'),
+                 ('p < q >= r', None, 'y', [(1, 'right'), (2, 'left'), (1, 'right')], 'in', 'cmpop')]
+    for src_o, fld, code_o, edits, opsrc, opmode in OBJ_CASES:
+        def one(idx, side, **options):
+            g = F(src_o)
+            if fld:
+                g.put_slice(code_o, idx, idx, fld, op_side=side, **options)
+            else:
+                g.put_slice(code_o, idx, idx, op_side=side, **options)
+            return g.src
+        for form in ('FST', 'AST'):
+            def mk():
+                o = F(opsrc, opmode)
+                return o if form == 'FST' else o.a
+            try:
+                alone = []
+                for idx, side in edits:
+                    try:
+                        alone.append(one(idx, side, op=mk()))
+                    except Exception as e:
+                        alone.append(f'refused {e.__class__.__name__}')
+                op = mk()
+                before = op.src if form == 'FST' else ast.dump(op)
+                seq = []
+                for idx, side in edits:
+                    ev += 1
+                    try:
+                        seq.append(one(idx, side, op=op))
+                    except Exception as e:
+                        seq.append(f'refused {e.__class__.__name__}')
+                after = op.src if form == 'FST' else ast.dump(op)
+                key = f'C20.B.option_object[{src_o!r},op={opsrc!r},{form}]'
+                if seq != alone:
+                    fail(key + '.sequence', f'the same op={opsrc!r} {form} object passed to a sequence of calls: results '
+                         f'{seq} differ from the results of each call alone {alone}')
+                if after != before:
+                    fail(key + '.unchanged', f'the option object was changed by the calls: {before!r} -> {after!r}')
+                if form == 'FST':
+                    op2 = mk()
+                    with FST.options(op=op2):
+                        blk = []
+                        for idx, side in edits:
+                            ev += 1
+                            try:
+                                blk.append(one(idx, side))
+                            except Exception as e:
+                                blk.append(f'refused {e.__class__.__name__}')
+                    if blk != alone or op2.src != before:
+                        fail(key + '.block_default', f'op installed by options(): results {blk} vs alone {alone}; option '
+                             f'source afterwards {op2.src!r}')
+                distinct.add(('option_object', src_o, opsrc, form))
+            except Exception as e:
+                fail(f'C20.B.option_object[{src_o!r},op={opsrc!r},{form}].harness', f'{e!r}')
     # 5. threads: defaults set in one thread are not visible in another, blocks in workers do not touch the main store
     main_before = FST.get_options()
     res = {}
